@@ -410,7 +410,8 @@ PLANS = {
     "C16": dict(level="model_checking", families=[("toroidal", 14, 16)],
                 rule="toroidal (canonicalised) builds in D=2,3 from lattice points far outside the box (up to 2^20 periods), "
                      "negative, exactly on faces, with periods 3..12 lattice units at scales 2^-3..2^1 (so 0.375 .. 24), an "
-                     "off-lattice probe just below a face, followed by three later insertions outside the box; TLC checks "
+                     "off-lattice probe just below a face, followed by three later insertions outside the box, and (2-D) the periodic "
+                     "image-point mode on 9-12 points given as congruent copies shifted by whole periods; TLC checks "
                      "w = m mod L exactly, the half-open box, idempotence and the C01 certificate of the wrapped set. "
                      "distinct non-trivial = distinct successful toroidal constructions",
                 nontrivial=_key_construct),
